@@ -8,18 +8,25 @@ use std::sync::Arc;
 
 fn writer_and_reader(reader: &str) {
     let v: Arc<boxcar::Vec<u32>> = Arc::new(boxcar::Vec::with_capacity(0, 1));
-    let w = v.clone();
+    // two writers (index reservation interleaves, so a reader can find a published item behind a
+    // reserved one); together they cross several bucket boundaries
     let n: u32 = 3 * boxcar::verif_access::SKIP;
-    let t = std::thread::spawn(move || {
-        for i in 0..n {
-            w.push(i, |_, _| {});
-        }
-    });
+    let mut ts = Vec::new();
+    for _w in 0..2 {
+        let w = v.clone();
+        ts.push(std::thread::spawn(move || {
+            for i in 0..n / 2 {
+                w.push(i, |_, _| {});
+            }
+        }));
+    }
     let mut seen = 0u64;
     for _round in 0..40 {
         match reader {
             "get" => {
-                for i in 0..n {
+                // highest indices first: the first flags looked at in a freshly installed bucket are those
+                // of entries nobody has published yet (reading a published flag would synchronise)
+                for i in (0..n + boxcar::verif_access::SKIP).rev() {
                     if let Some(it) = v.get(i) {
                         seen += *it.data as u64;
                     }
@@ -35,7 +42,7 @@ fn writer_and_reader(reader: &str) {
             }
             _ => {
                 // get_unchecked requires the caller to have observed the item: first through get
-                for i in 0..n {
+                for i in (0..n + boxcar::verif_access::SKIP).rev() {
                     if v.get(i).is_some() {
                         let it = unsafe { v.get_unchecked(i) };
                         seen += *it.data as u64;
@@ -45,13 +52,20 @@ fn writer_and_reader(reader: &str) {
         }
         std::thread::yield_now();
     }
-    t.join().unwrap();
+    for t in ts {
+        t.join().unwrap();
+    }
     assert!(seen < u64::MAX);
 }
+
+include!(concat!(env!("NUCLEO_VERIF_GEN"), "/miri_reader.rs"));
 
 #[cfg(test)]
 #[test]
 fn race_probe() {
-    let reader = std::env::var("NUCLEO_VERIF_MIRI_READER").unwrap_or_else(|_| "get".to_string());
+    // the reader is a generated constant (gen/miri_reader.rs, written by the driver before every Miri run):
+    // Miri does not hand the host environment to the interpreted program
+    let reader = MIRI_READER.to_string();
+    eprintln!("MIRI-READER {reader}");
     writer_and_reader(&reader);
 }
